@@ -572,16 +572,14 @@ def c19a(chk, rows):
                    "indexing shape/strides by the axis number must be dominated by `axis < dimensions()` (strict); found %s%s"
                    % (rel or "no dominating comparison", " - ONE-SIDED COMPARISON: axis == dimensions() passes the guard and then indexes out of bounds" if weak and not strict else ""))
         chk.ob("C19.a", "get_axis/axis-bounds-checks-found", n >= 2, f.loc(), "%d bounds checks on the axis number (shape[axis], strides[axis])" % n, nontrivial=False)
-        # index < shape[axis]
+        # index < shape[axis]: the view is constructed only where a strict bound on the position argument holds
+        nu = an.calls(f, ARR + "view::View::<'a, T>::new_unchecked")
         ok = False
-        for sb, st in f.switches():
-            s = an.switch_subject(f, sb)
-            if s["kind"] == "value" and s["root"] is not None:
-                d = f.single_def(s["root"])
-                if d and d[0] == "assign" and d[3]["k"] == "binop" and d[3]["op"] == "Ge" and op_local(d[3]["l"]) is not None and f.copy_root(op_local(d[3]["l"])) == 3:
-                    nu = an.calls(f, ARR + "view::View::<'a, T>::new_unchecked")
-                    ok = len(nu) == 1 and an.dominated_by_edge(f, sb, an.edge_target(st, 0), nu[0][0])
-        chk.ob("C19.a", "get_axis/index-strictly-below-axis-length", ok, f.loc(), "the view is constructed only on the false edge of `index >= shape[axis]`")
+        rel = []
+        if len(nu) == 1:
+            rel = implied_strict_less(f, nu[0][0], {"k": "copy", "place": {"l": 3, "p": []}})
+            ok = any(r[1] == "strict" for r in rel)
+        chk.ob("C19.a", "get_axis/index-strictly-below-axis-length", ok, f.loc(), "the view is constructed only where `index < shape[axis]` is implied (dominating comparisons on the position argument: %s)" % (rel or "none"))
     g = chk.fn(ARR + "shape::strides::Strides::flat_index")
     if g is not None:
         fu = an.calls(g, ARR + "shape::strides::Strides::flat_index_unchecked")
